@@ -74,7 +74,11 @@ func init() {
 		if k > 4000 {
 			k = 4000
 		}
-		rounds := h.pi("rounds", 2+k/20)
+		def := 2 + k/20
+		if def > 40 {
+			def = 40
+		}
+		rounds := h.pi("rounds", def)
 		limit := time.Duration(h.pi("limit_s", 15)) * time.Second
 		loads := []struct {
 			name string
